@@ -738,7 +738,7 @@ def run(ctx):
             labs.append("straddling-planarity")
         ctx.note(case, res["nontrivial"], labs)
 
-    ctx.hyp("c07", S.tapes(800).map(gen), check, ctx.scale(10000, 200000),
+    ctx.hyp("c07", S.mapped(800, gen), check, ctx.scale(10000, 200000),
             shrinker=shrink)
 
     # ---- placements: exhaustive for each class with distinct ligands
